@@ -45,7 +45,9 @@ func main() {
 			os.Exit(3)
 		}
 	case "probe":
-		b, _ := json.Marshal(concur.ProbeRegistries())
+		wdef, rdef := concur.ProbeDefaults() // first: the very first constructor calls of this process
+		reg := concur.ProbeRegistries()
+		b, _ := json.Marshal(map[string]any{"r": reg.R, "w": reg.W, "wdef": wdef, "rdef": rdef})
 		fmt.Println(string(b))
 	case "check":
 		fs := flag.NewFlagSet("check", flag.ExitOnError)
